@@ -33,6 +33,13 @@ RULES_DOC = {
     "R18": "`unsafe { e }` -> `{ e }` and `unsafe fn` -> `fn` (markers only)",
     "R12": "`a.mask().cmp(&b.mask())` -> `a.mask_cmp(b)`, `a.mask() < b.mask()` -> `a.mask_lt(b)` (contract methods of the Prefix trait; their order contract is discharged by the Kani harness mask_order)",
     "R11": "`vec![a, b]` -> `vec2(a, b)`-style helper calls with vstd-verified bodies (speclib/std_specs.rs)",
+    "Rx": "per-function textual rewrites declared in the contract store (`rewrite /re/ => text ## why`); each is listed with its reason in the evidence. The ones in use: "
+          "R6 closure body of `iter.map(|x| ..)` lifted into a function of one element (extend_lpm_elem); "
+          "R19 ghost parameters `Ghost(xa), Ghost(xb)` appended to `next()` of the set-operation iterators (erased); "
+          "R20 `impl IntoIterator<Item = X> + 'static` parameter narrowed to `Vec<X>`, one-element array arguments -> vec1; "
+          "R21 `Vec::extend(Vec|Option)` / `Vec::from_iter(Option)` -> trusted helpers vec_extend / vec_extend_opt / vec_from_opt; "
+          "R22 `extend_lpm(..).collect()` -> one trusted function Vec -> Vec; "
+          "R23 `impl AsView/AsViewMut` argument taken as the view type it converts to (`other.view()` dropped)",
 }
 
 # ------------------------------------------------------------------------------------------
